@@ -248,6 +248,37 @@ def vecHistGuard : Nat → List VecOp → G
     | .ok _ => vecHistGuard (vecOpDim d op) ops
 def vecDimAfter (d : Nat) (ops : List VecOp) : Nat := ops.foldl vecOpDim d
 
+/-! ### Objects that have been moved, swapped or pushed into a container: requests RELATIVE to the reported shape.
+    After `Vector b(std::move(a))`, `t = std::move(s)`, `list.push_back(std::move(v))` or `std::swap` the value of the
+    source is unspecified, but it must be self-consistent: the shape it REPORTS is the storage it owns.  The requests of
+    such a history are therefore formed from the shape the object itself reports at that moment. -/
+
+inductive RelReq where
+  | useAll      -- every index below the reported size / shape, `+=`, `Dot`, `Plus`, `Transpose`, `Product` with operands of the reported shape
+  | atSize      -- the index equal to the reported size (rows)
+  | grow (k : Nat)   -- `Resize` to the reported size plus `k`, then every index of the new shape
+
+/-- guard of a relative request on a vector that reports `d` elements -/
+def vecRelGuard (d : Nat) : RelReq → G
+  | .useAll => match vecPairGuard d d with
+      | .error e => .error e
+      | .ok _ => if d = 0 then pass else vecIndexGuard d (d - 1)
+  | .atSize => vecIndexGuard d d
+  | .grow k => if d + k = 0 then pass else vecIndexGuard (d + k) (d + k - 1)
+/-- guard of a relative request on a matrix that reports `r × c` -/
+def matRelGuard (s : Nat × Nat) : RelReq → G
+  | .useAll => match matSumGuard s.1 s.2 s.1 s.2 with
+      | .error e => .error e
+      | .ok _ => match matVecGuard s.1 s.2 s.2 with
+        | .error e => .error e
+        | .ok _ => if s.1 = 0 then pass else matIndexGuard s.1 (s.1 - 1)
+  | .atSize => matIndexGuard s.1 s.1
+  | .grow k => if s.1 + k = 0 then pass else matIndexGuard (s.1 + k) (s.1 + k - 1)
+/-- the outcome of a relative request does not depend on the shape at all -/
+def relOutcome : RelReq → G
+  | .atSize => stop
+  | _ => pass
+
 /-! ## 3. Interpolation (src/Numerics.cpp §1) — shared model `Lp.Interp` -/
 
 /-- a valid abscissa list in the simplest form: at least three points, every earlier point
